@@ -16,7 +16,7 @@ from sim.world import HarnessError, StepCap, Quiescent, SimAbort
 
 PROP = "C08"
 LEVEL = "exploration"
-COUNTS = {"quick": 24000, "thorough": 900000}
+COUNTS = {"quick": 16000, "thorough": 900000}
 MAX_SECONDS = {"quick": 100, "thorough": 1500}
 DET_EVERY = {"quick": 40, "thorough": 400}
 SHRINK_BUDGET = 700
